@@ -108,7 +108,12 @@ def check_centre(case, rec):
         rec.fail('check-valence', f'{key}: check_valence()={inv}, atoms without a state by the tables={ref_inv}',
                  sig=case['centre'])
         return
-    if ref is not None and not case['radical'] and case['bonds'] and all(e != 'H' for _, e in case['bonds']):
+    if ref is not None and not case['radical'] and case['bonds'] and all(e != 'H' for _, e in case['bonds']) and \
+            (case['centre'] not in ORGANIC or abs(case['charge']) > 2):
+        # RDKit's valence model is an independent judge for common chemistry only; for metals, heavy p-block elements and
+        # charges beyond +-2 its hydrogen counts are conventions of its own
+        rec.count('rdkit:not-claimed (element or charge outside common chemistry)')
+    elif ref is not None and not case['radical'] and case['bonds'] and all(e != 'H' for _, e in case['bonds']):
         rd = rdkit_centre_h(case)
         if rd is None:
             rec.count('rdkit:rejects')
